@@ -255,7 +255,9 @@ def create_loc_stack_checker(pred: Pred) -> LocStackChecker:
             f"Can not create LocStackChecker from {pred} generic alias (parametrized generic)",
         )
 
-    if not is_generic(norm.origin) and not is_parametrized(pred):
+    # tuple[()] is parametrized, but has no generic args
+    is_empty_tuple = norm.origin is tuple and pred is not tuple
+    if not is_generic(norm.origin) and not is_parametrized(pred) and not is_empty_tuple:
         return _create_loc_stack_checker_by_origin(norm.origin)   # this is only an optimization
     return ExactTypeLSC(norm)
 
